@@ -226,6 +226,48 @@ pub fn c18_cli_shell_concrete_words() {
     std::mem::forget(args);
 }
 
+/// `--shell="bash  -e\t-u"` (several words, mixed ASCII whitespace): the first word is the shell program, the
+/// remaining words are its options in order, the program option is `-c`, and the command words are still joined
+/// by single spaces with nothing passed as extra arguments. Concrete strings (see above), wrap mode symbolic.
+#[kani::proof]
+#[kani::stub(stdpanic::catch_unwind, crate::util::catch_unwind_stub)]
+#[kani::stub(miette::eyreish::capture_handler, crate::util::capture_handler_stub)]
+#[kani::unwind(14)]
+pub fn c18_cli_shell_multiword() {
+    let wrap = any_wrap();
+    let mut program = Vec::with_capacity(2);
+    program.push(String::from("x y"));
+    program.push(String::from("-c"));
+    let mut args = baseline_args(program);
+    args.command.wrap_process = wrap;
+    args.command.shell = Some(String::from("bash  -e\t-u"));
+    let r = interpret_command_args(&args);
+    assert!(r.is_ok(), "C18: multi-word shell rejected");
+    if let Ok(cmd) = &r {
+        check_options(&cmd.options, wrap);
+        match &cmd.program {
+            Program::Shell { shell, command, args: extra } => {
+                assert!(lit(shell.prog.as_os_str().as_bytes(), b"bash"), "C18: shell program is not the first word of --shell");
+                assert!(shell.options.len() == 2, "C18: shell options are not the remaining words of --shell");
+                if shell.options.len() == 2 {
+                    assert!(lit(shell.options[0].as_bytes(), b"-e"), "C18: first shell option altered or reordered");
+                    assert!(lit(shell.options[1].as_bytes(), b"-u"), "C18: second shell option altered or reordered");
+                }
+                match &shell.program_option {
+                    Some(o) => assert!(lit(o.as_bytes(), b"-c"), "C18: shell program option is not -c"),
+                    None => assert!(false, "C18: shell program option missing"),
+                }
+                assert!(extra.is_empty(), "C18: extra shell arguments invented");
+                assert!(lit(command.as_bytes(), b"x y -c"), "C18: command words not joined verbatim by single spaces");
+            }
+            Program::Exec { .. } => assert!(false, "C18: shell command not wrapped in the shell"),
+        }
+    }
+    kani::cover!(r.is_ok(), "multi-word shell command built");
+    std::mem::forget(r);
+    std::mem::forget(args);
+}
+
 /// `--shell=""` is rejected (no command is built); one two-byte word, wrap mode symbolic.
 #[kani::proof]
 #[kani::stub(stdpanic::catch_unwind, crate::util::catch_unwind_stub)]
